@@ -9,7 +9,7 @@ from symx import terms as T, groups as G, check, solver, engine, interp
 
 PID = "C18"
 OPS = {"op_group": 4 + 3 + 9 + 6 + 2 + 9 + 27 + 6, "op_sub": 4 + 2 + 1, "op_any": 4 + 3 + 1, "op_vec": 8 + 6, "op_spline": 4 + 3 + 3 + 1,
-       "op_bspline": 4 + 3 + 3, "op_sparse": 9 + 9}
+       "op_bspline": 4 + 3 + 3, "op_sparse": 9 + 9 + 27 + 27 + 9}
 TU = '#include "vconc.hpp"\n'
 NIN = 27
 
@@ -81,6 +81,9 @@ def job(op, tier):
     ex = engine.Explorer(h.mod, assumptions=asm, max_paths=200)
     paths = ex.explore(op, ins, nout, setup=setup)
     res.note_paths(paths, ex)
+    if ex.truncated:
+        res.notes.append(key + ": path budget (200) exhausted; unexplored paths are outside the claim")
+        res.bounds.add(key + ": at most 200 paths explored")
     res.functions.add(op)
     nok = 0
     for pi, p in enumerate(paths):
